@@ -279,7 +279,7 @@ def plan(tier, seed):
 
 def finish(acc, tier, seed):
     reasons = []
-    need = 6000 if tier == "quick" else 200000
+    need = 6000 if tier == "quick" else 80000
     if acc.evals < need:
         reasons.append(f"only {acc.evals} pairs compared (< {need})")
     if acc.counters.get("span_checks", 0) < acc.evals // 4:
